@@ -3,8 +3,10 @@ package props
 import (
 	"fmt"
 	"math/rand"
+	"os"
 	"path/filepath"
 	"strings"
+	"time"
 
 	"verif/core"
 	"verif/sut"
@@ -13,6 +15,7 @@ import (
 // C16 — failures are loud: non-zero exit, no regex printed, no target file modified.
 
 type c16Case struct {
+	IO    *c16IO   `json:"io,omitempty"` // an I/O fault case (the other fields are unused then)
 	Proj  *project `json:"proj"`
 	Fault string   `json:"fault"`
 	Pos   string   `json:"pos"`   // top | block | include | n/a
@@ -80,6 +83,9 @@ func operandOf(line string) (string, bool) {
 
 func c16Check(env *core.Env, cc core.Case) core.Verdict {
 	c := cc.(*c16Case)
+	if c.IO != nil {
+		return c16IOCheck(env, c.IO)
+	}
 	root := emptyRoot(env)
 	defer rmCase(root)
 	p := c.Proj
@@ -352,6 +358,34 @@ func c16Cases(env *core.Env, rng *rand.Rand) []core.Case {
 				}
 			}
 		}
+		// I/O faults injected on one file of the tree
+		io := func(fault, cmd, which string) {
+			cs = append(cs, &c16Case{IO: &c16IO{Proj: p, Fault: fault, Cmd: cmd, Which: which}, Fault: "io:" + fault, Cmd: cmd, Which: which})
+		}
+		for _, which := range []string{"first", "middle", "last"} {
+			for _, cmd := range []string{"generate", "update", "compare", "format-check", "update-all", "compare-all"} {
+				io("read-include", cmd, which)
+				io("read-assembly", cmd, which)
+			}
+			for _, cmd := range []string{"format", "format-all"} {
+				io("read-assembly", cmd, which)
+				io("write-target", cmd, which)
+			}
+			for _, cmd := range []string{"update", "compare", "update-all", "compare-all"} {
+				io("read-rules", cmd, which)
+			}
+			for _, cmd := range []string{"update", "update-all"} {
+				io("write-target", cmd, which)
+			}
+		}
+		io("read-include", "format-include", "first")
+		io("write-target", "format-include", "first")
+		for _, cmd := range []string{"renumber", "renumber-all"} {
+			io("read-test", cmd, "first")
+			io("write-target", cmd, "first")
+		}
+		io("read-conf", "copyright", "first")
+		io("write-target", "copyright", "last")
 	}
 	return cs
 }
@@ -360,7 +394,7 @@ func init() {
 	register(&core.Property{
 		ID:    "C16",
 		Level: "fault_enumeration",
-		Rule: "fault catalogue, enumerated completely per tree: 12 source-level fault classes (missing include / exclude file, malformed entry (7 forms), unknown processor, unknown or missing cmdline type, end marker without start, start without end (3 forms), unknown stored name, store marker without name, unsupported flag, odd replacement list, flags in an include file) x positions (end of file, start of file, inside an assemble block, inside an included file) x commands (generate from file and stdin, update, compare in text and github mode, update/compare --all with the faulty file first/middle/last in walk order, format/format --check/format --all where the formatter can see the fault) plus 9 tree/argument faults (rule id not in the rules file, chain offset beyond the chain, no / two rules files for the prefix, operator that is not @rx, missing assembly file, malformed rule argument, invalid / missing version). Tiers differ only in the number of generated trees around the faults (2 vs 40). " +
+		Rule: "fault catalogue, enumerated completely per tree: 12 source-level fault classes (missing include / exclude file, malformed entry (7 forms), unknown processor, unknown or missing cmdline type, end marker without start, start without end (3 forms), unknown stored name, store marker without name, unsupported flag, odd replacement list, flags in an include file) x positions (end of file, start of file, inside an assemble block, inside an included file) x commands (generate from file and stdin, update, compare in text and github mode, update/compare --all with the faulty file first/middle/last in walk order, format/format --check/format --all where the formatter can see the fault) plus 9 tree/argument faults (rule id not in the rules file, chain offset beyond the chain, no / two rules files for the prefix, operator that is not @rx, missing assembly file, malformed rule argument, invalid / missing version). Per tree also ~90 I/O faults: every read of one file (the include file, the assembly file, the rules file, a test file, a .conf file) fails with EIO, or every write to the file a command rewrites fails with ENOSPC (injected with strace -P <file> -e inject=...), for the single-target and --all forms with the poisoned unit first/middle/last: the command must not exit 0, generate must print nothing, a command that could not read must not have written, and a file that could not be read must not be rewritten; a case counts only if the log shows injected calls. Tiers differ only in the number of generated trees around the faults (2 vs 40). " +
 			"Oracle: exit status != 0; generate prints nothing; compare never says 'has not changed' for the faulty rule; the sandbox snapshot is unchanged for single-target commands; for --all the faulty unit is byte-identical, every other operand is either the old one or exactly generate's output, and no other line or file changes. Non-trivial = every injected fault.",
 		Cases:         c16Cases,
 		Check:         c16Check,
@@ -368,4 +402,136 @@ func init() {
 		MinNontrivial: 200,
 		Assumptions:   []string{"with --all the unit of atomicity is the assembly file (DESIGN section 7)", "exit status 2 with a zerolog panic message is a loud failure"},
 	})
+}
+
+// I/O faults: a read or write on one file of the tree fails (injected with strace). The statement's last sentence
+// applies: status 0 only when the output was completely produced or written.
+type c16IO struct {
+	Proj  *project `json:"proj"`
+	Fault string   `json:"fault"` // read-include | read-assembly | read-rules | read-test | read-conf | write-target
+	Cmd   string   `json:"cmd"`
+	Which string   `json:"which"`
+}
+
+func c16IOCheck(env *core.Env, c *c16IO) core.Verdict {
+	root := emptyRoot(env)
+	defer rmCase(root)
+	p := c.Proj
+	targets := p.targets()
+	if len(targets) == 0 {
+		return core.Verdict{Status: core.Skipped}
+	}
+	idx := map[string]int{"first": 0, "middle": len(targets) / 2, "last": len(targets) - 1}[c.Which]
+	ft := targets[idx]
+	tree := p.tree()
+	src := "leadword\n##!> include inc1\ntailword\n"
+	tree["regex-assembly/"+ft.Key+".ra"] = src
+	testRel := ""
+	for _, n := range sortedKeys(p.Tests) {
+		testRel = "tests/regression/tests/" + n
+		break
+	}
+	if err := tree.Write(root); err != nil {
+		return core.Incon("cannot write tree: %v", err)
+	}
+	var args []string
+	all := strings.HasSuffix(c.Cmd, "-all") || c.Cmd == "copyright" // commands that work through several files
+	switch c.Cmd {
+	case "generate":
+		args = []string{"regex", "generate", ft.Key}
+	case "update":
+		args = []string{"regex", "update", ft.Key}
+	case "compare":
+		args = []string{"-o", "github", "regex", "compare", ft.Key}
+	case "format":
+		args = []string{"regex", "format", ft.Key}
+	case "format-include":
+		args = []string{"regex", "format", "inc1"}
+	case "format-check":
+		args = []string{"regex", "format", "--check", ft.Key}
+	case "update-all":
+		args = []string{"regex", "update", "--all"}
+	case "compare-all":
+		args = []string{"-o", "github", "regex", "compare", "--all"}
+	case "format-all":
+		args = []string{"regex", "format", "--all"}
+	case "renumber":
+		if testRel == "" {
+			return core.Verdict{Status: core.Skipped}
+		}
+		args = []string{"util", "renumber-tests", filepath.Base(testRel)[:6]}
+	case "renumber-all":
+		args = []string{"util", "renumber-tests", "--all"}
+	case "copyright":
+		args = []string{"chore", "update-copyright", "-v", "4.9.9", "-y", "2031"}
+	}
+	poison, call, errno := "", "read", "EIO"
+	switch c.Fault {
+	case "read-include":
+		poison = "regex-assembly/include/inc1.ra"
+	case "read-assembly":
+		poison = "regex-assembly/" + ft.Key + ".ra"
+	case "read-rules":
+		poison = ft.File.path()
+	case "read-test":
+		poison = testRel
+	case "read-conf":
+		poison = ft.File.path()
+	case "write-target":
+		call, errno = "write", "ENOSPC"
+		switch {
+		case strings.HasPrefix(c.Cmd, "update"):
+			poison = ft.File.path()
+		case c.Cmd == "format-include":
+			poison = "regex-assembly/include/inc1.ra"
+		case strings.HasPrefix(c.Cmd, "format"):
+			poison = "regex-assembly/" + ft.Key + ".ra"
+		case strings.HasPrefix(c.Cmd, "renumber"):
+			poison = testRel
+		case c.Cmd == "copyright":
+			poison = ft.File.path()
+		}
+	}
+	if poison == "" {
+		return core.Verdict{Status: core.Skipped}
+	}
+	// the file that is to be written must differ from what the command would write, or no write happens at all
+	before := sut.Snap(root)
+	poisonBefore, _ := sut.Read(root, poison)
+	logf := filepath.Join(filepath.Dir(root), "inject.log")
+	full := append([]string{"-d", root}, args...)
+	r := sut.Run(sut.Cmd{Bin: env.Bin, Args: full, Dir: root, Strace: logf, InjectPath: filepath.Join(root, poison), InjectCall: call, InjectErr: errno, Timeout: 60 * time.Second})
+	logb, _ := os.ReadFile(logf)
+	_ = os.Remove(logf)
+	injected := strings.Count(string(logb), "(INJECTED)")
+	v := core.Verdict{Status: core.Held, Features: []string{"fault:io:" + c.Fault, "cmd:" + c.Cmd}, Counts: map[string]int{"injected_calls": injected}}
+	if r.Class() == sut.ClassTimeout {
+		return core.Incon("watchdog hit, not judged: %s", describe(r))
+	}
+	if injected == 0 {
+		return core.Verdict{Status: core.Skipped, Msg: "the command never touched the poisoned file"}
+	}
+	v.Nontrivial = true
+	what := fmt.Sprintf("every %s on %s fails with %s (%d calls), command %v", call, poison, errno, injected, args)
+	if r.Class() == sut.ClassFault {
+		return core.Viol("crash:io:"+c.Fault, "%s: crashed: %s", what, describe(r))
+	}
+	if r.Exit == 0 {
+		return core.Viol("exit0:io:"+c.Fault+":"+c.Cmd, "%s: exit status 0; stdout=%s", what, core.Q(string(r.Stdout)))
+	}
+	if c.Cmd == "generate" && len(r.Stdout) > 0 {
+		return core.Viol("prints-regex:io:"+c.Fault, "%s: failed (exit %d) but printed %s", what, r.Exit, core.Q(string(r.Stdout)))
+	}
+	if call == "read" && !all {
+		// nothing could be read completely, so nothing may have been written
+		if d := sut.Diff(before, sut.Snap(root)); len(d) > 0 {
+			return core.Viol("modifies-on-failure:io:"+c.Fault+":"+c.Cmd, "%s: exit %d but changed %v", what, r.Exit, d)
+		}
+	}
+	if call == "read" {
+		if now, _ := sut.Read(root, poison); now != poisonBefore {
+			return core.Viol("rewrites-unreadable-file:io:"+c.Fault+":"+c.Cmd, "%s: the file that could not be read was rewritten (%d -> %d bytes)", what, len(poisonBefore), len(now))
+		}
+	}
+	return v
 }
